@@ -206,6 +206,35 @@ func (l c04V2Listener) FetchRetryDepositEvents(ev events.RetryV1Event, a common.
 	return nil, nil
 }
 
+// c04LogNode: an EVM node that answers log queries; the first len(faults) queries fail with the scripted error kinds.
+type c04LogNode struct {
+	faults []string
+	reads  []string
+}
+
+func (n *c04LogNode) FetchEventLogs(ctx context.Context, a common.Address, ev string, s, e *big.Int) ([]ethTypes.Log, error) {
+	to := "nil"
+	if e != nil {
+		to = e.String()
+	}
+	n.reads = append(n.reads, s.String()+"."+to)
+	if len(n.reads) <= len(n.faults) {
+		return nil, scriptedErr(n.faults[len(n.reads)-1][0])
+	}
+	return nil, nil
+}
+func (n *c04LogNode) WaitAndReturnTxReceipt(common.Hash) (*ethTypes.Receipt, error) { return nil, errRPC }
+func (n *c04LogNode) LatestBlock() (*big.Int, error)                               { return nil, errRPC }
+func (n *c04LogNode) BlockByNumber(context.Context, *big.Int) (*ethTypes.Block, error) {
+	return nil, errRPC
+}
+
+type c04DepositHandler struct{}
+
+func (c04DepositHandler) HandleDeposit(sourceID, destID uint8, nonce uint64, resourceID [32]byte, calldata, handlerResponse []byte, messageID string, timestamp time.Time) (*message.Message, error) {
+	return message.NewMessage(sourceID, destID, nil, messageID, "t", timestamp), nil
+}
+
 func retryMsg(h string) *message.Message {
 	return message.NewMessage(2, 1, retry.RetryMessageData{SourceDomainID: 1, DestinationDomainID: 2,
 		BlockHeight: bigArg(h), ResourceID: [32]byte{1}}, "retry-1-2", retry.RetryMessageType, timeZero())
@@ -311,6 +340,29 @@ func init() {
 			return procOut(err, p.calls)
 		}
 		return "NOOP"
+	}
+	// evmretryreal <latest> <h> <conf> <faults>  =>  reads=<from.to,…>;<proc:<n msgs>|err>
+	//   retry by height over the REAL stack: RetryMessageHandler -> DepositEventHandler -> events.Listener -> node fake.
+	//   faults: ','-separated error kinds (g t w u n c, see scriptedErr) for the first node reads, '-' = none. The node
+	//   holds a deposit in every block; `reads` are the log queries the node received (to = nil is "up to the head").
+	ops["C04.evmretryreal"] = func(a []string) string {
+		node := &c04LogNode{faults: items(a[3], ",")}
+		el := events.NewListener(node)
+		ch := make(chan []*message.Message, 16)
+		dh := eventHandlers.NewDepositEventHandler(el, c04DepositHandler{}, common.Address{7}, 1, ch)
+		rh := evmExecutor.NewRetryMessageHandler(dh, c04Latest{a[0]}, c04PropStore{}, bigArg(a[2]), ch)
+		_, err := rh.HandleMessage(retryMsg(a[1]))
+		res := "err"
+		if err == nil {
+			n := 0
+			select {
+			case ms := <-ch:
+				n = len(ms)
+			default:
+			}
+			res = "proc:" + itoa(n)
+		}
+		return "reads=" + joinOr(node.reads, ",") + ";" + res
 	}
 	// seq <kind> <conf> <k> <steps>  =>  outputs of the steps, '|'-separated.
 	// All steps run against ONE set of objects wired like app.Run wires them: the chain config's BlockConfirmations
@@ -546,6 +598,12 @@ func genC04(g *G) {
 					g.Emit("retryv2", "sub", itoa64(latest), itoa64(h), "0")
 				}
 			}
+		}
+	}
+	// retry by height over the real EVM stack with every error kind on the first one or two node reads
+	for _, fl := range []string{"-", "g", "t", "w", "u", "n", "c", "u,u", "n,g", "t,t,t", "u,n,u"} {
+		for _, lh := range [][2]string{{"13", "10"}, {"12", "10"}, {"200", "150"}, {"150", "150"}, {"18446744073709551716", "18446744073709551711"}} {
+			g.Emit("evmretryreal", lh[0], lh[1], "2", fl)
 		}
 	}
 	// sequences on shared objects (the confirmations *big.Int is shared like in app.Run): retries of various heights,
